@@ -53,10 +53,12 @@ fn step_from(v: &Value) -> Option<Step17> {
     Some(Step17::Advance(v.get("advance")?.as_u64()?))
 }
 
-const END_KINDS: [&str; 16] = [
+const END_KINDS: [&str; 19] = [
     "close", "quit", "quitq", "close-mid-header", "close-mid-body", "bad-magic", "oversized-then-close", "idle", "reset", "reset-mid-request", "unknown-opcode", "close-after-work",
     // silence (no close) in every buffering state of the connection
     "idle-mid-header", "idle-mid-body", "idle-after-work", "idle-with-partial-request-behind-a-complete-one",
+    // an oversized request whose body is still in flight when the client closes / goes silent, and silence after one
+    "close-mid-oversized-body", "idle-mid-oversized-body", "idle-after-oversized",
 ];
 
 struct Client17 {
@@ -245,6 +247,18 @@ impl World17 {
                         let b = Request::store(op::SET, b"big", &big, 0, 0, 0).encode();
                         self.send(i, &b);
                         self.ring.fin(i);
+                    }
+                    "close-mid-oversized-body" | "idle-mid-oversized-body" | "idle-after-oversized" => {
+                        let big = vec![1u8; self.item_limit as usize + 10 + 50 * (i % 3)];
+                        let b = Request::store(op::SET, b"big", &big, 0, 0, 0).encode();
+                        // the header alone, header + part of the body, or all but the last byte
+                        let cut = match how.as_str() { "idle-after-oversized" => b.len(), _ => [24usize, 24 + 8 + 3 + 5, b.len() - 1][(i / 3) % 3] };
+                        self.send(i, &b[..cut]);
+                        if how == "close-mid-oversized-body" {
+                            self.ring.fin(i);
+                        } else {
+                            self.ring.advance_ms(2 * self.timeout_ms + 1000);
+                        }
                     }
                     "idle" => {
                         // nothing is sent any more; the server's idle timeout has to fire
@@ -543,7 +557,7 @@ impl Check for C17 {
         out
     }
     fn rule(&self) -> String {
-        "seeded histories of 3..10 x limit connection lifecycles on the whole server (ring N) for limits 1-4 and idle timeouts 1-10 s; arrivals overlap so that the limit is exceeded; each lifecycle ends by client close, close after work, quit, quitq, close mid-header, close mid-body, invalid magic, unknown opcode, oversized item then close, idle timeout, reset, or reset mid-request; noop probes in between. After every event (at quiescence): connections being served (server has started reading, has not dropped) <= limit; if any connection waits, exactly limit are served; a served connection answers its noop, an unserved one does not. After the last fault: everything times out, then exactly limit fresh connections are served, one more is not until a slot is freed, after which it is. non-trivial = at some point a connection waited for a slot; distinct = distinct fingerprints of (responses, served / waiting counts after every event)".into()
+        "seeded histories of 3..10 x limit connection lifecycles on the whole server (ring N) for limits 1-4 and idle timeouts 1-10 s; arrivals overlap so that the limit is exceeded; each lifecycle ends by client close, close after work, quit, quitq, close mid-header, close mid-body, invalid magic, unknown opcode, oversized item then close, close or silence inside an oversized body, silence after one, idle timeout (in every buffering state), reset, or reset mid-request; noop probes in between. After every event (at quiescence): connections being served (server has started reading, has not dropped) <= limit; if any connection waits, exactly limit are served; a served connection answers its noop, an unserved one does not. After the last fault: everything times out, then exactly limit fresh connections are served, one more is not until a slot is freed, after which it is. non-trivial = at some point a connection waited for a slot; distinct = distinct fingerprints of (responses, served / waiting counts after every event)".into()
     }
     fn assumptions(&self) -> Vec<String> {
         vec![
